@@ -74,6 +74,8 @@ func main() {
 		os.Exit(cmdPaths(os.Args[2:]))
 	case "lockstats":
 		os.Exit(cmdLockStats(os.Args[2:]))
+	case "resolve":
+		os.Exit(cmdResolve(os.Args[2:]))
 	case "golden":
 		os.Exit(cmdGolden(os.Args[2:]))
 	case "linpaths":
